@@ -28,6 +28,7 @@ type CfgRecipe struct {
 	Ps   []float64   `json:",omitempty"`
 	Kids []CfgRecipe `json:",omitempty"`
 	Doc  string      `json:",omitempty"` // cfg-mal: the JSON text
+	Lvl  string      `json:",omitempty"` // vcfg-mal: "vec" (ImportVectorPdfConfig) or "mat" (ImportMatrixPdfConfig)
 }
 
 type famInfo struct {
@@ -395,6 +396,19 @@ func cfgDocCause(c st.ConfigDistribution, set map[string]bool) {
 	}
 }
 
+// NewMixture insists on one component per weight; the importer is expected to hand back nothing less
+func scalarMixturesConsistent(d DistT) bool {
+	if d.Fam == "FMixture" && len(d.Ps) != len(d.Kids) {
+		return false
+	}
+	for _, k := range d.Kids {
+		if !scalarMixturesConsistent(k) {
+			return false
+		}
+	}
+	return true
+}
+
 func runConfigMal(rc Recipe) (res Result) {
 	var doc st.ConfigDistribution
 	err := json.Unmarshal([]byte(rc.Cfg.Doc), &doc)
@@ -407,11 +421,15 @@ func runConfigMal(rc Recipe) (res Result) {
 		return res
 	}
 	docTerm = "(Ok " + cfgCoq(doc) + ")"
-	gr, _ := guardImport(doc)
+	gr, back := guardImport(doc)
 	res.Coq = fmt.Sprintf("CMal %s %s", docTerm, gr.Coq())
 	res.Key += "/" + famOfName(doc.Name) + "/" + gr.Kind
 	res.Nontriv = true
 	res.Hist = append(res.Hist, "cfg-mal-import:"+gr.Kind)
+	if gr.Kind == "ok" && back != nil && !scalarMixturesConsistent(*back) {
+		res.Failures = []Failure{{Site: "cfg.ImportConfig", Kind: "reader-accepts-malformed", Cause: "mixture-arity",
+			Detail: "a mixture was imported whose number of weights differs from its number of components (NewMixture rejects that)", Type: famOfName(doc.Name)}}
+	}
 	if gr.Kind == "panic" || gr.Kind == "crash" {
 		set := map[string]bool{}
 		cfgDocCause(doc, set)
